@@ -97,7 +97,7 @@ CHECKS = {
         ref="DESIGN.md section 4 C10"),
     "C11": dict(
         text="Static strand-sibling agreement: label numbering 1+shift ascending vs len+shift descending with coordinates mirrored "
-             "about length-1; the chainer's query distance is antisymmetric between strands; the row header exchanges query "
+             "about length-1; the chainer's join score is strand independent (query distance = current start - previous end on both strands, since mirrored coordinates ascend); the row header exchanges query "
              "start/end on '-'; the reverse vector is the complete reversal of the forward query vector (reference never "
              "reversed); both strands go through getInitialAlignment with identical arguments and are offered independently; "
              "the strand flag is carried unchanged through refine, pairing, segments and the result row.",
@@ -127,7 +127,7 @@ CHECKS = {
     "C14": dict(
         text="Static rules on the chainer: abstract interpretation of the join score over the sign domain shows it non-positive "
              "(both scoring variants) under multiplier >= 0, constant folding shows exactly 0 for a contiguous join; -inf is "
-             "returned iff min(refLen+2refDist, qLen+2qDist) < 0; the query distance is antisymmetric between strands; the DP "
+             "returned iff min(refLen+2refDist, qLen+2qDist) < 0; reference and query distance are current start - previous end on both strands; the DP "
              "re-initialises to a finite value, records predecessors only on strict improvement over a proper prefix, adds "
              "the own score once, back-tracks until None and passes empty segments through via complementary predicates.",
         note="Assumes segmentJoinMultiplier >= 0 (not validated by args.py: observation O6). Optimality over all subsets is declined.",
